@@ -52,6 +52,23 @@ def kij(db, g1, g2):
     return 0.0
 
 
+class _KijOver(object):
+    """the database as the input has amended it: binary parameters of the named pairs replaced, whichever gas was named first"""
+
+    def __init__(self, db, over):
+        self._db = db
+        gb = dict(db.gas_binary)
+        for k, v in over.items():
+            a, b = k.split("|")
+            gb.pop((a, b), None)
+            gb.pop((b, a), None)
+            gb[(a, b)] = v
+        self.gas_binary = gb
+
+    def __getattr__(self, name):
+        return getattr(self._db, name)
+
+
 def mixture(db, x, tk):
     gs = [g for g in x if x[g] > 0]
     par = {g: pr_params(db, g, tk) for g in gs}
@@ -125,9 +142,26 @@ def build(ctx, case, db):
         warm = ("SOLUTION 9\n temp %s\n pH 7 charge\n Na 10\n Cl 10\nGAS_PHASE 9\n -fixed_pressure\n -pressure %s\n -volume 1\n -temperature %s\n" % (f(t2), f(gens.loguni(r, 1, 300)), f(t2))
                 + "".join(" %s %s\n" % (g, f(r.uniform(0.2, 2))) for g in gases) + "END\n")
         info["warm_temp"] = t2
+    # binary interaction parameters given (again) by the input: pairs the database already defines (H2O(g)-X) or new ones, either name first, sometimes defined
+    # twice - the last definition is the one the equation of state must use, for both orders of the pair
+    kover, kblock = {}, ""
+    if len(gases) >= 2 and r.random() < 0.35:
+        pairs = [(a, b) for i_, a in enumerate(gases) for b in gases[i_ + 1:]]
+        first = ""
+        for a, b in r.sample(pairs, r.randint(1, min(3, len(pairs)))):
+            if r.random() < 0.5:
+                a, b = b, a
+            v = round(r.uniform(-0.1, 0.6), 3)
+            if r.random() < 0.4:
+                x, y = (a, b) if r.random() < 0.5 else (b, a)
+                first += " %s %s %s\n" % (x, y, f(round(r.uniform(-0.1, 0.6), 3)))
+            kblock += " %s %s %s\n" % (a, b, f(v))
+            kover[(a, b)] = v
+        kblock = ("GAS_BINARY_PARAMETERS\n" + first if first else "") + "GAS_BINARY_PARAMETERS\n" + kblock
+    info["kij_over"] = {"%s|%s" % k: v for k, v in kover.items()}
     nfv = mode == "fixed_v" and r.random() < 0.35      # the numerical fixed-volume method (the default under Pitzer databases) has its own Peng-Robinson routine
     info["numerical_fixed_volume"] = nfv
-    text = "KNOBS\n -convergence_tolerance 1e-12\n -iterations 300\n" + (" -numerical_fixed_volume true\n" if nfv else "") + sel + warm + sol + "END\nUSE solution 1\n" + blocks + react + "END\n"
+    text = "KNOBS\n -convergence_tolerance 1e-12\n -iterations 300\n" + (" -numerical_fixed_volume true\n" if nfv else "") + kblock + sel + warm + sol + "END\nUSE solution 1\n" + blocks + react + "END\n"
     return text, info
 
 
@@ -145,6 +179,8 @@ def three_real_roots(a_sum, b, P, T):
 def run_case(ctx, case):
     db = c01.get_db(ctx, "phreeqc.dat")
     text, info = build(ctx, case, db)
+    if info.get("kij_over"):
+        db = _KijOver(db, info["kij_over"])
     cwd = ctx.scratch(case["id"])
     s = core.Script()
     s.raw("new a")
